@@ -7,9 +7,11 @@ import (
 	"crypto/sha256"
 	"crypto/sha512"
 	"crypto/x509"
+	"encoding/json"
 	"encoding/pem"
 	"fmt"
 	"hash"
+	"net/http"
 	"net/url"
 	"os"
 	"path/filepath"
@@ -398,6 +400,9 @@ type Knobs struct {
 	IDKey                   string            `json:"id_key,omitempty"`    // fixture key signing id tokens / jwt access tokens
 	JWTBearerIDOptional     bool              `json:"jb_id_optional,omitempty"`
 	JWTBearerIATOptional    bool              `json:"jb_iat_optional,omitempty"`
+	LegacyRevocationHandler bool              `json:"legacy_revocation_handler,omitempty"` // an extra revocation handler over an empty store is registered first
+	CustomResponseMode      bool              `json:"custom_response_mode,omitempty"`      // Config.ResponseModeHandlerExtension announces the extra mode "sim_post" (a decorated form post)
+	DenyClient              string            `json:"deny_client,omitempty"`               // Config.ClientAuthenticationStrategy: the default strategy plus an operator deny-list holding this client id
 	JWTBearerSkipClientAuth bool              `json:"jb_skip_client_auth,omitempty"`
 	JWTBearerMaxDur         int64             `json:"jb_max_dur,omitempty"`
 	OmitScopeParam          bool              `json:"omit_scope_param,omitempty"`
@@ -683,8 +688,67 @@ func (w *World) Compose() {
 		compose.OAuth2PKCEFactory,
 		compose.PushedAuthorizeHandlerFactory,
 	)
+	cfg.ResponseModeHandlerExtension = nil
+	if w.K.CustomResponseMode {
+		cfg.ResponseModeHandlerExtension = &simModeHandler{cfg: cfg}
+	}
+	cfg.ClientAuthenticationStrategy = nil
+	if w.K.DenyClient != "" {
+		// an operator-supplied strategy (as for mTLS or deny-lists): the built-in checks, then the deny-list. Every endpoint that
+		// authenticates clients has to go through it.
+		prov, deny := w.Provider.(*fosite.Fosite), w.K.DenyClient
+		cfg.ClientAuthenticationStrategy = func(ctx context.Context, r *http.Request, form url.Values) (fosite.Client, error) {
+			c, err := prov.DefaultClientAuthenticationStrategy(ctx, r, form)
+			if err != nil {
+				return nil, err
+			}
+			if c.GetID() == deny {
+				return nil, fosite.ErrInvalidClient.WithHint("The client is on the operator's deny-list.")
+			}
+			return c, nil
+		}
+	}
+	if w.K.LegacyRevocationHandler {
+		// a migration composition: a second revocation handler over another (empty) token store is asked first. It knows none of
+		// the presented tokens and, as RFC 7009 wants, answers "nothing to do" - the handler that owns the token must still be asked.
+		legacy := &oauth2.TokenRevocationHandler{TokenRevocationStorage: storage.NewMemoryStore(), RefreshTokenStrategy: w.HMAC, AccessTokenStrategy: w.HMAC}
+		cfg.RevocationHandlers = append(fosite.RevocationHandlers{legacy}, cfg.RevocationHandlers...)
+	}
 }
 
 func (w *World) Spec(id string) *ClientSpec { return w.Specs[id] }
 
 func (w *World) String() string { return fmt.Sprintf("world(%d clients)", len(w.Specs)) }
+
+// simModeHandler: a custom response mode as an application would register it through Config.ResponseModeHandlerExtension -
+// "sim_post" delivers the parameters exactly like form_post (the repository's own example decorates the form post too). The
+// library keeps its duties: it validates the mode against the client's registration and marks the response as not cacheable.
+const SimResponseMode = "sim_post"
+
+type simModeHandler struct{ cfg *fosite.Config }
+
+func (h *simModeHandler) ResponseModes() fosite.ResponseModeTypes {
+	return fosite.ResponseModeTypes{fosite.ResponseModeType(SimResponseMode)}
+}
+
+func (h *simModeHandler) WriteAuthorizeResponse(ctx context.Context, rw http.ResponseWriter, ar fosite.AuthorizeRequester, resp fosite.AuthorizeResponder) {
+	rw.Header().Set("Content-Type", "text/html;charset=UTF-8")
+	fosite.WriteAuthorizeFormPostResponse(ar.GetRedirectURI().String(), resp.GetParameters(), fosite.DefaultFormPostTemplate, rw)
+}
+
+func (h *simModeHandler) WriteAuthorizeError(ctx context.Context, rw http.ResponseWriter, ar fosite.AuthorizeRequester, err error) {
+	rfcerr := fosite.ErrorToRFC6749Error(err).WithLegacyFormat(h.cfg.UseLegacyErrorFormat).WithExposeDebug(h.cfg.SendDebugMessagesToClients)
+	if !ar.IsRedirectURIValid() {
+		rw.Header().Set("Content-Type", "application/json;charset=UTF-8")
+		js, _ := json.Marshal(rfcerr)
+		rw.WriteHeader(rfcerr.CodeField)
+		_, _ = rw.Write(js)
+		return
+	}
+	u := *ar.GetRedirectURI()
+	u.Fragment = ""
+	vals := rfcerr.ToValues()
+	vals.Set("state", ar.GetState())
+	rw.Header().Set("Content-Type", "text/html;charset=UTF-8")
+	fosite.WriteAuthorizeFormPostResponse(u.String(), vals, fosite.DefaultFormPostTemplate, rw)
+}
